@@ -7,25 +7,19 @@ variable (W : World) (conf : Conf) (r : Nat)
 theorem Atom.pyEq_refl (a : Atom) : a.pyEq a = true := by
   cases a <;> simp [Atom.pyEq, Atom.toInt?]
 
-theorem satAll_mem {h : Hint} {ys : List Obj} (hs : satAll W h ys = true) : ∀ y ∈ ys, sat W h y = true := by
-  induction ys with
-  | nil => intro y hy; cases hy
-  | cons a ys ih =>
-    simp only [satAll, Bool.and_eq_true] at hs
-    intro y hy
-    cases hy with
-    | head => exact hs.1
-    | tail _ h' => exact ih hs.2 y h'
+theorem satAll_mem {h : Hint} {ys : List Obj} (hs : ys.all (fun y => sat W h y) = true) : ∀ y ∈ ys, sat W h y = true := by
+  intro y hy
+  exact List.all_eq_true.mp hs y hy
 
-theorem satAll_getElem? {h : Hint} {ys : List Obj} (hs : satAll W h ys = true) (i : Nat) (y : Obj)
+theorem satAll_getElem? {h : Hint} {ys : List Obj} (hs : ys.all (fun y => sat W h y) = true) (i : Nat) (y : Obj)
     (hy : ys[i]? = some y) : sat W h y = true :=
   satAll_mem W hs y (List.mem_of_getElem? hy)
 
-theorem satAll_head? {h : Hint} {ys : List Obj} (hs : satAll W h ys = true) (y : Obj)
+theorem satAll_head? {h : Hint} {ys : List Obj} (hs : ys.all (fun y => sat W h y) = true) (y : Obj)
     (hy : ys.head? = some y) : sat W h y = true := by
   cases ys with
   | nil => simp at hy
-  | cons a ys => simp at hy; subst hy; simp only [satAll, Bool.and_eq_true] at hs; exact hs.1
+  | cons a ys => simp at hy; subst hy; exact satAll_mem W hs _ List.mem_cons_self
 
 mutual
 /-- L0 → L1: whatever is in the published meaning passes the sampled check, for
